@@ -26,6 +26,22 @@ def loop_src(loop, finite):
         return "r = /(?=(a+)+b)a/.test(%s) ? 1 : 0;" % ("'aab'" if finite else SUBJ)
     if loop == "nested_eval_loop":
         return "var i=0; while (%s) { i++; (1,eval)('var q=0; for (var j=0;j<20;j++) q+=j') } r = i;" % ("i<3" if finite else "true")
+    if loop.startswith("rx_"):
+        _, api, ctor = loop.split("_", 2)
+        pat, flags = "(a+)+b", ("g" if api == "replaceAll" else "")
+        if ctor == "lookahead_copy":
+            pat = "(?=(a+)+b)a"
+        lit = "/%s/%s" % (pat, flags)
+        rx = {"literal": lit, "RegExp_str": "RegExp('%s', '%s')" % (pat, flags), "new_RegExp_str": "new RegExp('%s', '%s')" % (pat, flags),
+              "new_RegExp_regex": "new RegExp(%s)" % lit, "RegExp_regex": "RegExp(%s, '%s')" % (lit, flags),
+              "string_pattern": "'%s'" % pat, "lookahead_copy": "new RegExp(%s)" % lit}[ctor]
+        if api in ("test", "exec"):
+            if ctor == "string_pattern":
+                rx = "new RegExp(%s)" % rx
+            return "var rx = %s; r = rx.%s(%s) ? 1 : 0;" % (rx, api, SUBJ)
+        if api in ("match", "search", "split"):
+            return "var rx = %s; var q = %s.%s(rx); r = q ? 1 : 0;" % (rx, SUBJ, api)
+        return "var rx = %s; var q = %s.%s(rx, 'z'); r = q.length;" % (rx, SUBJ, api)
     raise ValueError(loop)
 
 
